@@ -84,7 +84,7 @@ func c15SmallConfigs() []cfg.Config {
 	b := cfg.Config{
 		Meta: cfg.Meta{Pkg: sp("app"), Functions: []cfg.KV{{K: "cnt", V: "fx/libx.Count"}}},
 		Params: []cfg.Param{
-			{Name: "p0", Val: cfg.Str(`%todo("fill me,in (1,000) ,ok 100\x25d")%`)}, // the given message, with separators and brackets inside the string
+			{Name: "p0", Val: cfg.Str(`%todo("fill me,in (1,000) ,ok :) 100\x25d")%`)}, // the given message, with separators and brackets inside the string
 			{Name: "p1", Val: cfg.Str(`%cnt("k1", 1)%%p0%`)},
 		},
 		Services: []cfg.Service{
